@@ -451,6 +451,80 @@ void run_c05_convert() {
     sim::probe("Reader and Writer shared one pool");
 }
 
+
+// C05 with several Readers on one pool: two or three consumer threads, each with its own Reader (own input, own
+// options), share one thread pool with a small work queue, as programs do that read several files at once through
+// Pool::default_instance(). Every consumer must see exactly its own file's reference sequence.
+void run_c05_multi() {
+    simfs::reset();
+    const uint32_t nreaders = 2 + choose(S_CONF, 2);
+    std::vector<Input> inputs;
+    std::vector<Outcome> refs;
+    std::vector<ReaderOpts> opts;
+    sim::clear_values();
+    for (uint32_t i = 0; i < nreaders; ++i) {
+        Input in = pick_input(200, static_cast<int>(choose(S_WORK, 2)), 12, false);
+        in.suffix = "r" + std::to_string(i) + "." + in.suffix; // distinct simulated file names
+        ReaderOpts ro;
+        ro.from_buffer = choose(S_WORK, 4) == 0 || in.buffer_only;
+        put_input(in);
+        inputs.push_back(in);
+        opts.push_back(ro);
+    }
+    for (uint32_t i = 0; i < nreaders; ++i) { refs.push_back(reference_read(inputs[i], opts[i].from_buffer)); }
+    config_queues();
+    config_buffers();
+    const int pool_threads = pick_pool_threads();
+    std::vector<Outcome> runs(nreaders);
+    int threads_left = 0;
+    sim::RunConfig cfg;
+    sim::begin_run(cfg);
+    {
+        osmium::thread::Pool pool{pool_threads, 0};
+        const int base_threads = sim::live_threads();
+        {
+            std::vector<std::thread> consumers;
+            for (uint32_t i = 1; i < nreaders; ++i) {
+                consumers.emplace_back([&, i] {
+                    sim::name_thread("consumer");
+                    runs[i] = read_all(inputs[i], opts[i], &pool);
+                });
+            }
+            runs[0] = read_all(inputs[0], opts[0], &pool);
+            for (auto& t : consumers) { t.join(); }
+        }
+        threads_left = sim::live_threads() - base_threads;
+    }
+    const size_t fds_left = simfs::open_fd_count();
+    const std::string fd_desc = fds_left ? simfs::describe_open_fds() : std::string{};
+    if (fds_left) { simfs::force_close_all(); }
+    sim::end_run();
+    sim::clear_env();
+    sim::clear_values();
+    std::string extra = ",\"readers\":" + std::to_string(nreaders) + ",\"pool\":" + std::to_string(pool_threads) + ",\"inputs\":\"";
+    for (const auto& in : inputs) { extra += in.suffix + " "; }
+    extra += "\"";
+    sim::set_sample(sample_json(inputs[0], extra));
+    if (threads_left != 0) { sim::report("oracle", "C05.leak/thread/multi", std::to_string(threads_left) + " threads left after all Readers on the shared pool were destroyed"); }
+    if (fds_left != 0) { sim::report("oracle", "C05.leak/fd/multi", "file descriptors left open: " + fd_desc); }
+    for (uint32_t i = 0; i < nreaders; ++i) {
+        const std::string kind = io_kind(inputs[i], opts[i].from_buffer) + "/multi";
+        if (refs[i].threw) {
+            if (!runs[i].threw) { sim::report("oracle", "C05.result/" + kind + "/ref-throws-run-ok", "reference threw " + refs[i].exc_what + " but the run on the shared pool succeeded"); }
+            continue;
+        }
+        if (runs[i].threw) {
+            sim::report("oracle", "C05.result/" + kind + "/run-throws-" + exc_class(runs[i]), "reader " + std::to_string(i) + " of " + std::to_string(nreaders) + " on a shared pool threw " + runs[i].exc_what);
+            continue;
+        }
+        if (refs[i].header != runs[i].header) { sim::report("oracle", "C05.header/" + kind, "reference " + refs[i].header + " run " + runs[i].header); }
+        if (refs[i].objs.size() != runs[i].objs.size() || !prefix_consistent(refs[i].objs, runs[i].objs)) {
+            sim::report("oracle", "C05.sequence/" + kind, "reader " + std::to_string(i) + " of " + std::to_string(nreaders) + " on a shared pool: " + first_diff(refs[i].objs, runs[i].objs));
+        }
+    }
+    sim::probe("several Readers shared one pool");
+}
+
 } // namespace
 
 // further modes (C07, C03) live in reader_faults.inc to keep this file readable
@@ -463,6 +537,7 @@ int main(int argc, char** argv) {
         else if (info.mode == "c06enum") { run_c06_enum(); }
         else if (info.mode == "c05") { run_c05(); }
         else if (info.mode == "c05convert") { run_c05_convert(); }
+        else if (info.mode == "c05multi") { run_c05_multi(); }
         else if (info.mode == "c07") { run_c07(); }
         else if (info.mode == "c07enum") { run_c07_enum(); }
         else if (info.mode == "c03") { run_c03(); }
